@@ -1126,7 +1126,14 @@ func compileStringLitEx(ctx *blockCtx, cb *gogen.CodeBuilder, lit *ast.BasicLit)
 			}
 			compileExpr(ctx, v, flags)
 			t := cb.Get(-1).Type
-			if t.Underlying() != types.Typ[types.String] {
+			if t.Underlying() == types.Typ[types.String] {
+				if n != 1 && t != types.Typ[types.String] { // named string type: stringutil.Concat takes strings
+					x := cb.InternalStack().Pop()
+					cb.Typ(types.Typ[types.String])
+					cb.InternalStack().Push(x)
+					cb.Call(1)
+				}
+			} else {
 				if _, err := cb.Member("string", gogen.MemberFlagAutoProperty); err != nil {
 					if _, e2 := cb.Member("error", gogen.MemberFlagAutoProperty); e2 != nil {
 						if e, ok := err.(*gogen.CodeError); ok {
